@@ -15,9 +15,11 @@ import (
 	"math/rand/v2"
 	"os"
 	"reflect"
+	"runtime"
 	"sort"
 	"strconv"
 	"strings"
+	"sync"
 	"testing"
 	"time"
 
@@ -413,6 +415,8 @@ func c8Clone(x any, normNaN bool) any {
 const c8ExhBase = 10_000_000
 const c8RespBase = 5_000_000
 const c8BadBase = 6_000_000
+const c8IDBase = 7_000_000
+const c8OwnBase = 8_000_000
 
 type c8Run struct {
 	out   *vOut
@@ -1171,6 +1175,120 @@ func (h *c8Run) generated(c int) {
 	}
 }
 
+// ownBlock: for every root and both codecs, `seqReps` sequential cases (marshal A, keep the bytes, marshal B and C, compare the
+// KEPT bytes with the snapshot taken right after the first call and decode them) and `concReps` concurrent cases (`gor`
+// goroutines, each keeps its first result while it and the others marshal `iters` more payloads).
+func (h *c8Run) ownBlock(replay, base, seqReps, concReps, gor, iters int) {
+	idx := base
+	names := []string{"logs", "metrics", "traces", "profiles", "logsreq", "metricsreq", "tracesreq", "profilesreq",
+		"logsresp", "metricsresp", "tracesresp", "profilesresp"}
+	type marshalFn func(x any) ([]byte, error)
+	for _, name := range names {
+		r := h.roots[name]
+		codecs := []struct {
+			name string
+			m    marshalFn
+		}{
+			{"pb", func(x any) ([]byte, error) { b, _, err := r.enc(x); return b, err }},
+			{"json", r.jenc},
+		}
+		for _, cd := range codecs {
+			gen := func(rnd *rand.Rand, k int) []any {
+				out := make([]any, k)
+				for i := range out {
+					g := c8NewGen(rnd, false)
+					g.pDefault = 0.1
+					g.budget += 10
+					out[i] = g.root(r.m)
+				}
+				return out
+			}
+			sig := "C08/own/marshal-output-changed-after-later-marshal/" + cd.name + "/" + r.name
+			for rep := 0; rep < seqReps+concReps; rep++ {
+				c := idx
+				idx++
+				if replay >= 0 && replay != c {
+					continue
+				}
+				rnd := vRand(c)
+				conc := rep >= seqReps
+				h.begin(c, "own", r.name)
+				h.out.Linef("op fuzz %s own -", r.name)
+				h.out.Linef("obs done")
+				if !conc {
+					xs := gen(rnd, 3)
+					res := c8Guard(func() c8Res {
+						a, err := cd.m(xs[0])
+						if err != nil {
+							return c8Res{err: err}
+						}
+						snap := append([]byte(nil), a...)
+						for _, y := range xs[1:] {
+							if _, err := cd.m(y); err != nil {
+								return c8Res{err: err}
+							}
+						}
+						if !bytes.Equal(a, snap) {
+							return c8Res{b: snap, n: 1}
+						}
+						return c8Res{b: snap}
+					})
+					if res.panic != "" || res.hung {
+						h.viol("C08/total/panic-marshal-"+cd.name+"/"+r.name, "own-sequential panic="+c8Short(res.panic))
+					} else if res.err == nil && res.n == 1 {
+						h.viol(sig, "mode=sequential first="+c8HexCap(res.b))
+					}
+					h.stat("own.seq." + cd.name)
+				} else {
+					xs := gen(rnd, gor)
+					bad := make(chan string, gor)
+					var wg sync.WaitGroup
+					for i := 0; i < gor; i++ {
+						wg.Add(1)
+						go func(i int) {
+							defer wg.Done()
+							defer func() {
+								if p := recover(); p != nil {
+									bad <- "panic " + fmt.Sprint(p)
+								}
+							}()
+							a, err := cd.m(xs[i])
+							if err != nil {
+								return
+							}
+							snap := append([]byte(nil), a...)
+							for k := 0; k < iters; k++ {
+								_, _ = cd.m(xs[(i+k+1)%gor])
+								runtime.Gosched()
+							}
+							if !bytes.Equal(a, snap) {
+								bad <- "goroutine=" + strconv.Itoa(i) + " first=" + c8HexCap(snap)
+							}
+						}(i)
+					}
+					wg.Wait()
+					close(bad)
+					for msg := range bad {
+						h.viol(sig, "mode=concurrent "+msg)
+						break
+					}
+					h.stat("own.conc." + cd.name)
+				}
+				h.end(true)
+			}
+		}
+	}
+}
+
+// TestVerifC08OwnRace: the concurrent ownership block alone, more goroutine rounds; run with -race in the thorough tier.
+func TestVerifC08OwnRace(t *testing.T) {
+	out := vOpen(t)
+	defer out.Close()
+	out.Linef("model c08-codec 1")
+	h := &c8Run{out: out, roots: c8BuildRoots()}
+	h.ownBlock(-1, c8OwnBase+100_000, 0, 2, 8, 40)
+}
+
 func TestVerifC08Codec(t *testing.T) {
 	out := vOpen(t)
 	defer out.Close()
@@ -1235,7 +1353,7 @@ func TestVerifC08Codec(t *testing.T) {
 	// unknown enum names, out-of-range 64/32-bit integers, numbers where strings are expected and vice versa), all four signals
 	// and the request wrappers. The unmarshaler must answer (error or value) — never panic or hang; the model predicts the answer.
 	// Case indices from c8BadBase; always run (also in quick).
-	if replay < 0 || (replay >= c8BadBase && replay < c8ExhBase) {
+	if replay < 0 || (replay >= c8BadBase && replay < c8IDBase) {
 		idx := c8BadBase
 		for _, rootName := range []string{"logs", "metrics", "traces", "profiles", "logsreq", "metricsreq", "tracesreq", "profilesreq"} {
 			r := h.roots[rootName]
@@ -1270,6 +1388,45 @@ func TestVerifC08Codec(t *testing.T) {
 				}
 			}
 		}
+	}
+	// boundary shapes of the fixed-size ids (values with a zero test): every id of the payload one-hot at each byte position,
+	// high half zero (64-bit ids left-padded), low half zero — all signals and request wrappers, proto and JSON round trip.
+	if replay < 0 || (replay >= c8IDBase && replay < c8OwnBase) {
+		idx := c8IDBase
+		shapes := []string{"hi0", "lo0"}
+		for p := 0; p < 16; p++ {
+			shapes = append(shapes, "hot"+strconv.Itoa(p))
+		}
+		for _, rootName := range []string{"logs", "metrics", "traces", "profiles", "logsreq", "metricsreq", "tracesreq", "profilesreq"} {
+			r := h.roots[rootName]
+			for _, shape := range shapes {
+				c := idx
+				idx++
+				if replay >= 0 && replay != c {
+					continue
+				}
+				rnd := vRand(c)
+				var x any
+				n := 0
+				for try := 0; try < 16 && n == 0; try++ {
+					g := c8NewGen(rnd, false)
+					g.pDefault = 0.05
+					g.budget += 30
+					x = g.root(r.m)
+					n = c8SetIDs(reflect.ValueOf(x), shape)
+				}
+				h.begin(c, "value", r.name)
+				h.stat("idshape." + shape)
+				h.stats["idshape.ids"] += n
+				h.runValue(r, x)
+				h.end(n > 0)
+			}
+		}
+	}
+	// ownership of the marshalers' output: the bytes returned for A must not change when B, C, … are marshalled later
+	// (sequentially, and by other goroutines) — every marshaler, proto and JSON, all roots.
+	if replay < 0 || (replay >= c8OwnBase && replay < c8ExhBase) {
+		h.ownBlock(replay, c8OwnBase, 2, 1, 8, 10)
 	}
 	if (vThorough() && replay < 0) || replay >= c8ExhBase {
 		idx := c8ExhBase
